@@ -140,6 +140,10 @@ impl Scenario for C15Windows {
             let direct_bounds = [1.0, 2.5, 10.0, 30.0];
             let mut single = Histogram::new(&direct_bounds).unwrap();
             let mut batched = Histogram::new(&direct_bounds).unwrap();
+            // a third one is fed batches whose iterator sometimes panics part-way (caught): every
+            // sample is 0.5, below every bound, so each bucket must always equal the total count
+            let mut interrupted = Histogram::new(&[1.0, 2.0, 4.0]).unwrap();
+            let mut renders = 0u32;
             let mut pending: Vec<f64> = vec![];
             let mut prev_counts: std::collections::BTreeMap<(usize, String), u64> = Default::default();
             let mut fail = |c: &str, dd: String| {
@@ -205,6 +209,30 @@ impl Scenario for C15Windows {
                             // direct histogram: batching makes no difference
                             batched.record_many(pending.iter());
                             pending.clear();
+                            renders += 1;
+                            {
+                                struct IterPanic;
+                                let boom = renders % 2 == 0;
+                                let vals = [0.5f64, 0.5, 0.5];
+                                let r = std::panic::catch_unwind(std::panic::AssertUnwindSafe(|| {
+                                    interrupted.record_many(vals.iter().enumerate().map(|(k, v)| {
+                                        if boom && k == 2 {
+                                            std::panic::resume_unwind(Box::new(IterPanic));
+                                        }
+                                        v
+                                    }));
+                                }));
+                                if let Err(p) = r {
+                                    if !p.is::<IterPanic>() {
+                                        std::panic::resume_unwind(p);
+                                    }
+                                }
+                                let c = interrupted.count();
+                                let b = interrupted.buckets();
+                                if b.iter().any(|(_, n)| *n != c) || (interrupted.sum() - 0.5 * c as f64).abs() > 1e-9 {
+                                    fail("batch-interrupted-inconsistent", format!("op {}: after a record_many whose iterator {} the histogram of 0.5-valued samples has count {} sum {} buckets {:?} (every bucket must equal the count)", i, if boom { "panicked after two samples" } else { "completed" }, c, interrupted.sum(), b));
+                                }
+                            }
                             if single.buckets() != batched.buckets() || single.count() != batched.count() || (single.sum() != batched.sum() && !(single.sum().is_nan() && batched.sum().is_nan())) {
                                 fail("batch-vs-single", format!("op {}: Histogram fed one sample at a time {:?}/{} differs from the same samples in batches {:?}/{}", i, single.buckets(), single.count(), batched.buckets(), batched.count()));
                             }
